@@ -72,9 +72,15 @@ func oracleStorageRouting(c *Ctx, id int, k *KCall, r *KResult, body string) {
 		scale := math.Max(math.Max(math.Abs(prev), math.Abs(s)), (inflow[t]+lateral[t]+math.Abs(nef)+q)*dt)
 		tol := srMassBalanceLimit*(1+1e-6) + 1e-9*scale
 		if math.Abs(s-want) > tol {
+			// attribution: the zero-outflow exits reported SIndex(minQI) (= dead storage for zero bias); an index flow
+			// returned by FindRoot's convergence-in-x exit leaves SIndex above the water present (outflow clamps to 0)
 			scope := "StorageRouting"
-			if q == 0 {
+			if q == 0 && bias == 0 && s == dead {
 				scope = "StorageRouting:zero-outflow-storage"
+			} else if q == 0 && bias > 0 && s > want {
+				scope = "StorageRouting:zero-outflow-storage"
+			} else if q == 0 && s > want {
+				scope = "StorageRouting:unconverged"
 			}
 			c.OracleFail(id, scope, fmt.Sprintf("step %d: water balance does not close: storage %v, but previous storage %v + (inflow %v + lateral %v − net evaporation %v − outflow %v)·%v = %v (difference %g, tolerance %g)",
 				t, s, prev, inflow[t], lateral[t], nef, q, dt, want, s-want, tol), body)
@@ -93,9 +99,9 @@ func oracleStorageRouting(c *Ctx, id int, k *KCall, r *KResult, body string) {
 			slack := 1e-11 * math.Max(math.Max(s, dead), 1)
 			c.Stats.Count("oracle:SQ-checked")
 			if s < lo-slack || s > hi+slack {
-				scope := "StorageRouting:SQ-unconverged"
+				scope := "StorageRouting:unconverged"
 				if s > hi && lateral[t] > 0 && math.Abs(s-lateral[t]*dt) <= 1e-9*s+lim {
-					scope = "StorageRouting:SQ-full-drain-lateral"
+					scope = "StorageRouting:full-drain-lateral"
 				}
 				c.OracleFail(id, scope, fmt.Sprintf("step %d: bias 0, outflow %v > 0: storage %v is not k·Q^m + dead = %v·%v^%v + %v = %v within the solver tolerance (admissible [%v, %v]); lateral=%v prevStorage=%v",
 					t, q, s, rk, q, m, dead, sq, lo, hi, lateral[t], prev), body)
